@@ -37,13 +37,15 @@ impl MemcacheBinaryConnection {
                             request.header.body_length,
                             self.buffer.len()
                         );
-                        let skip = (request.header.body_length) - (self.buffer.len() as u32);
-                        if skip >= self.buffer.len() as u32 {
-                            self.buffer.clear();
+                        // discard exactly body_length bytes: what is buffered first, the rest from the socket
+                        let body_length = request.header.body_length as usize;
+                        if self.buffer.len() >= body_length {
+                            let _ = self.buffer.split_to(body_length);
                         } else {
-                            self.buffer = self.buffer.split_off(skip as usize);
+                            let skip = (body_length - self.buffer.len()) as u32;
+                            self.buffer.clear();
+                            self.skip_bytes(skip).await?;
                         }
-                        self.skip_bytes(skip).await?;
                         return Ok(Some(BinaryRequest::ItemTooLarge(request)));
                     }
                     _ => {
